@@ -104,11 +104,23 @@ static void simplify(ref::RefGraph& g) {
   }
 }
 
-static ref::RefGraph makeGraph(Rng& rng, unsigned np, uint64_t maxNodes, std::string& kind) {
+static ref::RefGraph makeGraph(Rng& rng, unsigned np, uint64_t maxNodes, bool allowHuge, std::string& kind) {
   using ref::Shape;
   unsigned k = (unsigned)rng.below(24);
+  bool huge  = rng.chance(1, 50);
   ref::RefGraph g(0);
   uint64_t gs = rng.next();
+  if (huge && allowHuge) {
+    // > 8 MB of edges for one destination host from one reading thread: edgePartitionSendBufSize is exceeded and
+    // buffers are sent from inside the edge loop (NewGeneric.h sendEdges)
+    uint64_t n = 2000 + rng.below(6000), m = 1500000 + rng.below(600000);
+    g          = ref::RefGraph(n);
+    ref::GenRng r(gs);
+    for (uint64_t i = 0; i < m; ++i)
+      g.addEdge(r.below(n), r.below(n));
+    kind = "huge";
+    return g;
+  }
   auto sized  = [&](uint64_t lo, uint64_t hi) { return (uint64_t)rng.range((int64_t)lo, (int64_t)std::max(lo, hi)); };
   switch (k) {
   case 0: { // fewer nodes than hosts (or a single node)
@@ -605,7 +617,7 @@ int main(int argc, char** argv) {
     a.edgeData         = dataMode == 1 || dataMode == 2;
     uint64_t fileEsz   = dataMode == 0 ? 0 : 4;
     std::string kind;
-    ref::RefGraph g = makeGraph(rng, np, maxNodes, kind);
+    ref::RefGraph g = makeGraph(rng, np, maxNodes, H.thorough && H.paramInt("nohuge", 0) == 0, kind);
     if (a.symmetric)
       symmetrize(g);
     if (mining) {
@@ -644,6 +656,7 @@ int main(int argc, char** argv) {
       cuts.push_back(N);
     }
     unsigned sleeper = (unsigned)rng.below(np * 3); // >= np: nobody
+    bool stripPad    = rng.chance(1, 2);
     unsigned sleepUs = 200 + (unsigned)rng.below(20000);
     uint64_t pseed   = rng.next();
     unsigned pointProb = (unsigned)rng.pick<uint64_t>({0, 0, 0, 1024});
@@ -660,17 +673,24 @@ int main(int argc, char** argv) {
 
     // component = policy class + configuration class (crash keys are built from it by the driver)
     std::string comp = policyName(cb.policy);
-    if (M == 0)
+    if (wantMasters)
+      comp += "+mastersFile";
+    else if (M == 0)
       comp += "/no-edges";
     else if (N < np)
       comp += "/nodes<hosts";
-    if (wantMasters)
-      comp += "+mastersFile";
     std::string cls;
     if (me == 0) {
-      ref::write_gr(a.graphFile, g, 1, fileEsz);
+      // version 1 without edge data and with an odd edge count: the 4 pad bytes at the end are optional
+      auto writeGr = [&](const std::string& path, const ref::RefGraph& gg) {
+        std::vector<uint8_t> b = ref::encode_gr(gg, 1, fileEsz);
+        if (stripPad && fileEsz == 0 && (M % 2) == 1)
+          b.resize(b.size() - 4);
+        ref::write_file_bytes(path, b);
+      };
+      writeGr(a.graphFile, g);
       if (!a.transposeFile.empty())
-        ref::write_gr(a.transposeFile, tg, 1, fileEsz);
+        writeGr(a.transposeFile, tg);
       if (wantMasters) {
         FILE* f = fopen(a.mastersFile.c_str(), "w");
         if (!f) {
